@@ -637,6 +637,18 @@ func c08JSONDocs(depth int) []string {
 		ob.WriteString("}")
 		docs = append(docs, ob.String())
 	}
+	// magnitudes claimed inside the document: a number's exponent is a count the input asserts in a
+	// few bytes (expanding "1e4000000" to digits costs megabytes); long digit strings and long
+	// (hex and non-hex) strings are the linear-size counterparts.  Each in every position a value can
+	// take: top level, object member (plain and hash-named), array element, after a number, nested.
+	{
+		big := []string{`1e400`, `1e100000`, `1e1000000`, `2e4000000`, `-1e1000000`, `1E+1000000`, `1.5e1000000`, `1e-1000000`, `0e1000000`, `123456789e999999`,
+			strings.Repeat("7", 100000), `0.` + strings.Repeat("3", 100000),
+			`"` + strings.Repeat("0f", 50000) + `"`, `"` + strings.Repeat("0f", 500000) + `"`, `"` + strings.Repeat("zz", 500000) + `"`, `"` + strings.Repeat("0f", 49999) + `0"`}
+		for _, v := range big {
+			docs = append(docs, v, `{"x":`+v+`}`, `{"hash":`+v+`}`, `[`+v+`]`, `[1,`+v+`]`, `{"x":[1,`+v+`]}`, `{"x":[`+v+`,1]}`, `{"x":{"y":`+v+`}}`, `{"x":["ab",`+v+`]}`, `{"x":[{"y":`+v+`}]}`)
+		}
+	}
 	docs = append(docs, ``, `{`, `[`, `"`, `{"hash":`, hex.EncodeToString([]byte("x")), strings.Repeat("[", 200)+strings.Repeat("]", 200))
 	return docs
 }
